@@ -16,7 +16,7 @@ func init() {
 		Explanation: "Decides the flow-control mechanism of RuleGroup.Eval, not data-dependent skip counts: R1 every path from the rule loop to Eval's return resets Skip, SkipAfter and a phase-scoped AllowType (path query over the SSA CFG); " +
 			"R2 every exit edge of the rule loop is classified by its guard facts and an allow-caused exit is impossible in the logging phase unless it is allow:phase (facts on the exit edge: AllowType==All needs phase!=Logging, AllowType==Request needs phase in {1,2}); " +
 			"R3 Skip/SkipAfter/AllowType have a frozen writer set, and Transaction.Allow stores its argument under exactly the guard RuleEngine==On; R4 exclusion lists, pending marker, skip counter and allow switch are all decided before r.Evaluate within the same iteration (facts at the call; no same-iteration path from a skipping edge to the call), a marker clears SkipAfter only on equality and the skip counter is decremented exactly once per skipped rule; " +
-			"R5 a chain member with an explicit disruptive action is rejected and the pending chain discarded on that path; R6 allow:request is reset inside the loop only at phase 2.",
+			"R5 a chain member with an explicit disruptive action is rejected and the pending chain discarded on that path; R6 allow:request is reset inside the loop only at phase 2; R7 the flow and disruptive actions of a fired rule (skip, skipAfter, allow, deny ...) are evaluated under no condition other than the chain result, the chain-starter test and the action type — in particular not depending on interruption, engine mode or phase.",
 		NotDecided: []string{
 			"exact number of rules skipped for data-dependent matches",
 			"chain link ordering beyond C01.R6",
@@ -140,6 +140,11 @@ func runC08(c *an.Ctx) {
 		{fn: "internal/corazawaf.(*RuleGroup).Eval", why: "scope expiry", check: storesConst(unsetA)},
 		{fn: "internal/corazawaf.(*WAF).newTransaction", why: "reset", check: storesConst(unsetA)},
 	})
+	// ... and readers: the three flow-control fields are consulted by the rule loop only.
+	evalOnly := map[string]string{"internal/corazawaf.(*RuleGroup).Eval": "the rule loop"}
+	whoMayRead(c, "R3", pkgWAF, "Transaction", "AllowType", evalOnly, 2)
+	whoMayRead(c, "R3", pkgWAF, "Transaction", "Skip", evalOnly, 1)
+	whoMayRead(c, "R3", pkgWAF, "Transaction", "SkipAfter", evalOnly, 1)
 	// Allow must store on every path with engine On: the only branch in Allow is the engine test.
 	if af := c.Fn("R3", "internal/corazawaf.(*Transaction).Allow"); af != nil {
 		nIf := 0
@@ -263,6 +268,9 @@ func runC08(c *an.Ctx) {
 
 	// ---- R5 chain members with disruptive actions are rejected and the chain dropped.
 	c08Chain(c)
+
+	// ---- R7 the flow actions of a fired rule always run.
+	c08FlowActionsRun(c)
 }
 
 func c08Chain(c *an.Ctx) {
@@ -340,4 +348,34 @@ func shortFacts(f an.Facts) string {
 		return "no guard"
 	}
 	return strings.Join(s, " && ")
+}
+
+// c08FlowActionsRun: the once-per-rule action call in Rule.doEvaluate carries no foreign guard.
+func c08FlowActionsRun(c *an.Ctx) {
+	fn := c.Fn("R7", "internal/corazawaf.(*Rule).doEvaluate")
+	if fn == nil {
+		return
+	}
+	nondis := constVal(c, "R7", "experimental/plugins/plugintypes", "ActionTypeNondisruptive")
+	n := 0
+	live := an.LiveBlocks(fn)
+	for _, b := range fn.Blocks {
+		if !live[b] {
+			continue
+		}
+		for _, in := range b.Instrs {
+			if !an.IsCallToMethod(in, fullPT, "Action", "Evaluate") {
+				continue
+			}
+			f := an.FactsAt(in)
+			if f.HasSuffix(".Function.Type()", "==", nondis) {
+				continue // per-match site (multiphase builds)
+			}
+			n++
+			fg := foreignGuards(f, ".Function.Type()", "rangeindex", "r.actions", ".ParentID_", "*nr", "matchedValues", "matchedChainValues")
+			c.Check(len(fg) == 0, "R7", "doEvaluate: flow and disruptive actions of a fired rule run unconditionally", in.Pos(),
+				"guards: "+shortFacts(f), "the flow/disruptive actions of a fired rule are additionally conditioned on "+strings.Join(fg, ", ")+": in those states skip/skipAfter/allow of a matching rule silently do nothing (e.g. logging-phase rules of an interrupted transaction are no longer skipped)")
+		}
+	}
+	c.MinCount("R7", "once-per-rule action call sites", n, 1)
 }
